@@ -332,6 +332,11 @@ func (c *FnCtx) computeOrdinals(fn *ssa.Function) {
 			if cc, ok := in.(ssa.CallInstruction); ok {
 				k = "call:" + calleeName(cc.Common())
 			}
+			if _, ok := in.(*ssa.Select); ok {
+				// select statements are clause sites too: `call select#n: assert ...` (arg0 / arg1: channel
+				// and value of the first send case)
+				k = "call:select"
+			}
 			if k == "" {
 				continue
 			}
